@@ -108,6 +108,20 @@ def _real_coords(name, args):
     raise KeyError(name)
 
 
+def _real_utils(name, args):
+    import numpy as np
+    from verde.utils import partition_by_sum
+    if name == "partitionBySum":
+        sizes = [] if args[0] == "-" else [int(t) for t in args[0].split(",")]
+        try:
+            r = partition_by_sum(np.array(sizes, dtype=int), int(args[1]))
+        except ValueError:
+            return ["err"]
+        r = [int(v) for v in r]
+        return [",".join(str(v) for v in r) if r else "-"]
+    raise KeyError(name)
+
+
 def _differs(kind, a, b):
     if len(a) != len(b):
         return True
@@ -116,6 +130,9 @@ def _differs(kind, a, b):
             continue
         if kind == "kernels":
             if not _same_float(_f(x), y if isinstance(y, float) else _f(y)):
+                return True
+        elif kind == "utils":
+            if x != y:
                 return True
         else:
             if x in ("true", "false", "err", "ok") or y in ("true", "false", "err", "ok"):
@@ -130,14 +147,14 @@ def search(kind, limit=5):
     """Returns (found, stats).  found: list of dicts with definition, inputs, gen, model, impl."""
     stats = {"probes": 0, "gen_differs_from_model": 0, "real_code_differs_too": 0, "error": None}
 
-    r = C._locked(["sh", "-c", "lake build VerdeModel.Gen.Kernels VerdeModel.Gen.Coords VerdeModel.Gen.Trend >&2 && "
+    r = C._locked(["sh", "-c", "lake build VerdeModel.Gen.Kernels VerdeModel.Gen.Coords VerdeModel.Gen.Trend VerdeModel.Gen.Utils >&2 && "
                    f"lake env lean --run GenEval.lean {kind}"], C.LEAN_DIR, 1500)
     if r.returncode != 0:
         stats["error"] = "translated definitions do not evaluate: " + (r.stdout + r.stderr)[-800:]
         return [], stats
     out = r.stdout
     found = []
-    real = _real_kernels if kind == "kernels" else _real_coords
+    real = {"kernels": _real_kernels, "utils": _real_utils}.get(kind, _real_coords)
     for line in out.splitlines():
         parts = [p.split() for p in line.split("|")]
         if len(parts) != 3:
@@ -166,7 +183,7 @@ def search(kind, limit=5):
 
 def rerun(kind, items):
     """Replay: re-evaluate the real functions at the recorded inputs and compare with the recorded model values."""
-    real = _real_kernels if kind == "kernels" else _real_coords
+    real = {"kernels": _real_kernels, "utils": _real_utils}.get(kind, _real_coords)
     bad = 0
     for it in items:
         try:
